@@ -154,6 +154,106 @@ theorem crc_detects_partial (cfg : Cfg) (hcrc : cfg.crcOn = true) (w w' m : Byte
       cases hh : replayAux cfg f' w.length w 0 true m with
       | mk rc mn => rw [hh] at hrc; simp only at hrc; subst hrc; rfl
 
+/-- **Lost tail, log with reset marks (online backup in progress).**  Cut the log at any length `n`; let the pre-scan
+of the cut log report the savepoint `f` and the reset mark `r`, the mark being preceded by its separator in the
+uncut log (`_rollforward_exl` appends `WBSEP, WBRESET`), and let the roll-forward of the uncut log from that
+separator on succeed over `m` (the main file, which already holds everything up to the mark).  Then recovery succeeds;
+it leaves the main file alone when the last savepoint precedes the mark, and otherwise ends exactly in the state
+of savepoint `f` of the uncut log: all records from the mark's separator up to `f`, none after it, applied to `m`.
+(`f` itself is characterised by `prescan_cut_savepoint`.) -/
+theorem recover_cut_reset (cfg : Cfg) (w m : Bytes) (n f r : Nat) (hn : n ≤ w.length)
+    (hpre : prescan (w.take n) = (f, r)) (hr : 12 ≤ r)
+    (hmark : ∃ c l, (r - 12, Rec.sep c l) ∈ walk w)
+    (hok : (replay cfg 0 (w.drop (r - 12)) m).rc = .ok) :
+    (f < r → recover cfg 1 (w.take n) m = (.ok, m, [])) ∧
+    (r ≤ f → recover cfg 1 (w.take n) m = (.ok, (replay cfg (f - (r - 12)) (w.drop (r - 12)) m).main, [])) := by
+  have hne : (w.take n).isEmpty = false := by
+    cases hh : (w.take n).isEmpty with
+    | false => rfl
+    | true =>
+      have : w.take n = [] := by simpa using hh
+      rw [this] at hpre; simp [prescan, prescanAux] at hpre; omega
+  constructor
+  · intro hlt
+    unfold recover rollforward
+    simp only [hne, Bool.false_eq_true, if_false, hpre]
+    by_cases h0 : f = 0
+    · simp [h0]
+    · have : r > 0 ∧ (1:Nat) = 1 := ⟨by omega, rfl⟩
+      simp [h0, this, hlt]
+  · intro hle
+    obtain ⟨c, l, hmem⟩ := hmark
+    have hf0 : f ≠ 0 := by omega
+    have hlen : (w.take n).length = n := by simp; omega
+    -- the pre-scan with fuel |w|
+    have hpre' : prescanAux w.length (w.take n) 0 true 0 0 = (f, r) := by
+      rw [← hpre]; unfold prescan; exact prescanAux_fuel _ _ _ _ _ _ _ (by omega) (by omega)
+    have hfound := prescanAux_cut_found w.length w n 0 true 0 0 hn (by rw [hpre']; exact hf0)
+    rw [hpre'] at hfound
+    simp only at hfound
+    -- continue the pre-scan from the separator of the mark
+    obtain ⟨fp', rp', hfp', hpass⟩ := prescanAux_pass w.length w n 0 true 0 0 (r - 12) (Rec.sep c l)
+      (Nat.le_refl _) hn hmem (Nat.zero_le _) (by rw [hpre']; simp only; omega)
+    simp only [Nat.sub_zero] at hpass
+    obtain ⟨adv, hparse⟩ := walkAux_mem_parse _ _ _ _ _ hmem
+    simp only [Nat.sub_zero] at hparse
+    have hhead : (w.drop (r - 12)).headD 0 = WOP_SEP := parse_sep_head hparse
+    have hk1 : 1 ≤ n - (r - 12) := by omega
+    have hhead' : ((w.drop (r - 12)).take (n - (r - 12))).headD 0 = WOP_SEP := by rw [headD_take _ _ hk1]; exact hhead
+    have hpass' : prescanAux w.length ((w.drop (r - 12)).take (n - (r - 12))) (r - 12) false fp' rp' = (f, r) := by
+      rw [← hpre', hpass]
+      cases hb : (true && decide (r - 12 = 0)) with
+      | false => rfl
+      | true => exact (prescanAux_first _ _ _ _ _ hhead').symm
+    have hcut := replayAux_cut cfg w.length (w.drop (r - 12)) (n - (r - 12)) (r - 12) false fp' rp' m
+      (by rw [hpass']; simp only; omega)
+    rw [hpass'] at hcut
+    simp only at hcut
+    -- what the code computes
+    have hdrop : (w.take n).drop (r - 12) = (w.drop (r - 12)).take (n - (r - 12)) := List.drop_take ..
+    have hsh : f - (r - 12) + (r - 12) = f := by omega
+    have e1 : replay cfg (f - (r - 12)) ((w.take n).drop (r - 12)) m = replayAux cfg f w.length ((w.drop (r - 12)).take (n - (r - 12))) (r - 12) false m := by
+      unfold replay
+      rw [hdrop, replayAux_fuel cfg _ _ w.length _ _ _ _ (Nat.le_refl _) (by simp; omega), replayAux_first _ _ _ _ _ _ hhead']
+      have := replayAux_shift cfg (r - 12) w.length (f - (r - 12)) ((w.drop (r - 12)).take (n - (r - 12))) 0 false m
+      rw [hsh, Nat.zero_add] at this
+      exact this.symm
+    have e2 : replay cfg (f - (r - 12)) (w.drop (r - 12)) m = replayAux cfg f w.length (w.drop (r - 12)) (r - 12) false m := by
+      unfold replay
+      rw [replayAux_fuel cfg _ _ w.length _ _ _ _ (Nat.le_refl _) (by simp), replayAux_first _ _ _ _ _ _ hhead]
+      have := replayAux_shift cfg (r - 12) w.length (f - (r - 12)) (w.drop (r - 12)) 0 false m
+      rw [hsh, Nat.zero_add] at this
+      exact this.symm
+    have hrc : (replay cfg (f - (r - 12)) (w.drop (r - 12)) m).rc = .ok :=
+      replayAux_stop_ok cfg _ 0 _ _ 0 true m
+        (fun q hq h => no_savepoint_at_zero _ hhead (h ▸ hq)) hok
+    unfold recover rollforward
+    have hcond : r > 0 ∧ (1:Nat) = 1 := ⟨by omega, rfl⟩
+    have hnlt : ¬ f < r := by omega
+    have h10 : (1:Nat) ≠ 0 := by decide
+    simp only [hne, Bool.false_eq_true, if_false, hpre, hf0, hcond, hnlt, sz_WBSEP, ne_eq, if_true, h10, not_false_eq_true,
+      and_self]
+    rw [e1, hcut, ← e2]
+    simp [hrc]
+
+/-- For **every** byte string `w` and cut length `n`: the savepoint the pre-scan of the cut log reports (if any) is a
+savepoint record of the uncut log lying completely inside the cut, and under `SegClosed` no intact savepoint record
+is newer. (Holds with or without reset marks.) -/
+theorem prescan_cut_savepoint (w : Bytes) (n : Nat) (hn : n ≤ w.length) :
+    ((prescan (w.take n)).1 ≠ 0 → ((prescan (w.take n)).1, Rec.savepoint) ∈ walk w ∧ (prescan (w.take n)).1 + 12 ≤ n) ∧
+    (w.headD 0 = WOP_SEP → SegClosed w → ∀ s, (s, Rec.savepoint) ∈ walk w → s + 12 ≤ n → s ≤ (prescan (w.take n)).1) := by
+  have hlen : (w.take n).length = n := by simp; omega
+  have hpre : prescan (w.take n) = prescanAux w.length (w.take n) 0 true 0 0 := by
+    unfold prescan; exact prescanAux_fuel _ _ _ _ _ _ _ (by omega) (by omega)
+  rw [hpre]
+  constructor
+  · intro h0
+    have := prescanAux_cut_found w.length w n 0 true 0 0 hn h0
+    exact ⟨this.1, by omega⟩
+  · intro hsep hclosed s hs hsn
+    exact prescanAux_cut_ge w.length w n 0 true 0 0 s hn (fun _ => hsep) hs (by omega)
+      (fun p c l hp hlt => hclosed p c l s hp hs hlt)
+
 /-- the executable test the correspondence check runs on every real log implies the hypothesis of `recover_cut` -/
 theorem segClosedB_sound (w : Bytes) (h : segClosedB w = true) : SegClosed w := by
   intro p c l s hp hs hlt
